@@ -107,6 +107,50 @@ int main(int argc, char** argv) {
             Vector resid; m.calcResidualForce(s, mobF, bodyF, s.getUDot(), s.getMultipliers(), resid); pvec("OUT RESID", resid);
             std::printf("OUT POWER %a\n", m.calcConstraintPower(s));
             Vector Gtl; m.multiplyByGTranspose(s, s.getMultipliers(), Gtl); pvec("OUT GTL", Gtl);
+            // ---- per-constraint accessors (Constraint::calcPower, force / multiplier / error accessors, P V A matrices) against the system-level ones
+            { Vector_<SpatialVec> FG; Vector fu; m.findConstraintForces(s, FG, fu); Real pw = 0;       // documented: power = -(dot(F,V) + dot(f,u))
+              for (MobilizedBodyIndex b(0); b < m.getNumBodies(); ++b) pw -= ~FG[b] * m.getMobilizedBody(b).getBodyVelocity(s);
+              pw -= ~fu * s.getU(); std::printf("OUT POWER_FROM_FORCES %a\n", pw); }
+            Matrix PqA; if (mA) m.calcPq(s, PqA);
+            for (size_t i = 0; i < specs.size(); ++i) {
+                if (!specs[i].enabled) continue;
+                const Constraint& c = m.getConstraint(A.cons[i].cx); int p, v, a; c.getNumConstraintEquationsInUse(s, p, v, a);
+                MultiplierIndex pa, va, aa; c.getIndexOfMultipliersInUse(s, pa, va, aa);
+                MultiplierIndex pf, vf, af; c.getIndexOfMultipliersInUse(sAll, pf, vf, af);
+                int kd = specs[i].special ? K_BALL : specs[i].kind;
+                std::printf("PCON %d %d %s %d %d %d %d %d %d\n", (int)i, kd, CKNAMES[kd], p, v, a, p ? (int)pa : 0, v ? (int)va : 0, a ? (int)aa : 0);
+                std::printf("PC FULLROWS"); for (int j = 0; j < p; ++j) std::printf(" %d", (int)pf + j); for (int j = 0; j < v; ++j) std::printf(" %d", (int)vf + j);
+                for (int j = 0; j < a; ++j) std::printf(" %d", (int)af + j); std::printf("\n");
+                std::printf("PC POWER %a\n", c.calcPower(s));
+                pvec("PC MULT", c.getMultipliersAsVector(s)); pvec("PC PERR", c.getPositionErrorsAsVector(s));
+                pvec("PC VERR", c.getVelocityErrorsAsVector(s)); pvec("PC AERR", c.getAccelerationErrorsAsVector(s));
+                // power from the constraint's own force accessors
+                Vector_<SpatialVec> bf = c.getConstrainedBodyForcesAsVector(s); Vector mf = c.getConstrainedMobilityForcesAsVector(s); Real pw = 0;
+                for (int j = 0; j < bf.size(); ++j) pw -= ~bf[j] * c.getMobilizedBodyFromConstrainedBody(ConstrainedBodyIndex(j)).getBodyVelocity(s);
+                { int cu = 0; for (ConstrainedMobilizerIndex cm(0); cm < c.getNumConstrainedMobilizers(); ++cm) { const MobilizedBody& mb = c.getMobilizedBodyFromConstrainedMobilizer(cm);
+                    int n = c.getNumConstrainedU(s, cm); for (int j = 0; j < n; ++j, ++cu) pw -= mf[cu] * s.getU()[(int)mb.getFirstUIndex(s) + j]; } }
+                std::printf("PC POWER_FROM_OWN_FORCES %a %d %d\n", pw, bf.size(), mf.size());
+                // forces recomputed from this constraint's multipliers (A frame -> G) must be the ones the state reports
+                { Vector_<SpatialVec> fa; Vector mf2; c.calcConstraintForcesFromMultipliers(s, c.getMultipliersAsVector(s), fa, mf2);
+                  const Rotation& R_GA = c.getNumConstrainedBodies() ? c.getAncestorMobilizedBody().getBodyRotation(s) : Rotation(); Real d = 0, sc = 1;
+                  for (int j = 0; j < fa.size(); ++j) { SpatialVec g(R_GA * fa[j][0], R_GA * fa[j][1]); d += (g - bf[j]).norm(); sc += bf[j].norm(); }
+                  d += (mf2 - mf).norm(); sc += mf.norm(); std::printf("PC FORCES_FROM_MULT_DIFF %a %a\n", d, sc); }
+                // per-constraint matrices
+                if (p) { Matrix P = c.calcPositionConstraintMatrixP(s), Pt = c.calcPositionConstraintMatrixPt(s), PN = c.calcPositionConstraintMatrixPNInv(s);
+                    for (int r2 = 0; r2 < p; ++r2) { std::printf("PC P %d", r2); for (int j = 0; j < nu; ++j) std::printf(" %a", P(r2, j)); std::printf("\n");
+                        std::printf("PC PT %d", r2); for (int j = 0; j < nu; ++j) std::printf(" %a", Pt(j, r2)); std::printf("\n");
+                        std::printf("PC PNINV %d", r2); for (int j = 0; j < PN.ncol(); ++j) std::printf(" %a", PN(r2, j)); std::printf("\n");
+                        std::printf("PC PQROW %d", r2); for (int j = 0; j < PqA.ncol(); ++j) std::printf(" %a", PqA((int)pa + r2, j)); std::printf("\n"); } }
+                if (v) { Matrix Vt = c.calcVelocityConstraintMatrixVt(s);
+                    for (int r2 = 0; r2 < v; ++r2) { std::printf("PC VT %d", r2); for (int j = 0; j < nu; ++j) std::printf(" %a", Vt(j, r2)); std::printf("\n"); }
+                    try { Matrix V = c.calcVelocityConstraintMatrixV(s); for (int r2 = 0; r2 < v; ++r2) { std::printf("PC V %d", r2); for (int j = 0; j < nu; ++j) std::printf(" %a", V(r2, j)); std::printf("\n"); } }
+                    catch (const std::exception& e) { std::printf("PC V_THROWS %s\n", std::string(e.what()).substr(0, 160).c_str()); } }
+                if (a) { Matrix At = c.calcAccelerationConstraintMatrixAt(s);
+                    for (int r2 = 0; r2 < a; ++r2) { std::printf("PC AT %d", r2); for (int j = 0; j < nu; ++j) std::printf(" %a", At(j, r2)); std::printf("\n"); }
+                    try { Matrix Am = c.calcAccelerationConstraintMatrixA(s); for (int r2 = 0; r2 < a; ++r2) { std::printf("PC A %d", r2); for (int j = 0; j < nu; ++j) std::printf(" %a", Am(r2, j)); std::printf("\n"); } }
+                    catch (const std::exception& e) { std::printf("PC A_THROWS %s\n", std::string(e.what()).substr(0, 160).c_str()); } }
+            }
+            pvec("OUT MULT", s.getMultipliers()); pvec("OUT QDOT", s.getQDot());
             // ---- the same system without the disabled constraints
             bool anyOff = false; for (size_t i = 0; i < specs.size(); ++i) if (!specs[i].enabled) anyOff = true;
             if (anyOff) {
